@@ -204,3 +204,254 @@ Example C06_nonvacuous :
             need (FM full_value) = 7.
 Proof. exact nonvacuous. Qed.
 Print Assumptions C06_nonvacuous.
+
+(* ================================================================================================================ *)
+(* (g) messages owned by ONE field codec (proofs/ConformCodecs.v).  The plain fragment above stops at the first sebuf
+   annotation; here the top-level message carries nullable, int64_encoding = NUMBER, bytes_encoding, timestamp_format
+   or empty_behavior fields (children un-annotated, as in the C05 conforms theorems, whose hypotheses are taken over
+   unchanged).  For every well-typed value outside the defect classes, the JSON the server sends (Codec.encode, equal
+   to the documented form Mapping.to_json by conforms_nullable / _int64 / _bytes / _ts / _empty) validates against the
+   component schema of the message and carries no property that schema does not describe.
+   Added hypotheses: nullable — ConformCodecs.nullable_shape (nullable = true only on singular / optional fields of
+   scalar kinds other than enum; needed: C06_message_valid_nullable_needs_nonenum is a FINDING, the two others are
+   placements the generator refuses); bytes / timestamp — ConformCodecs.codec_params P (the formats hex, base64url,
+   date, unix-timestamp(-ms) are annotations and the hex pattern matches hex text; P06 satisfies it);
+   empty_behavior — the reference walk needs the validation fuel of the value when a field is NULL-annotated
+   (C06_message_valid_empty_needs_fuel). *)
+From SebufProofs Require NullableFacts NullableConforms Int64Conforms BytesConforms TimestampConforms EmptyConforms ConformCodecs.
+
+(* the documented form itself, for any mix of the five annotations on one message (ConformCodecs.c6_msg_ok: every field
+   is un-annotated as far as its own rendering goes, or NUMBER on a non-map 64-bit field, or a non-map bytes field, or
+   a singular Timestamp with a format; nullable on singular scalars only; no flatten, no configured oneof, no root unwrap) *)
+Theorem C06_message_valid_documented : forall (E : ExtLib) (sc : schema) (P : vparams) (cs : list (str * ynode))
+    (tn : str) (md : message) (m : mval) (j : json),
+  fprint_is_number E -> wire_formats_are_annotations P ->
+  forallb ConformCodecs.plain_or_i64 (m_fields md) = true \/ ConformCodecs.codec_params P ->
+  find_message (all_messages sc) ts_name = None -> str_eqb tn ts_name = false -> is_wkt_other tn = false ->
+  find_message (all_messages sc) tn = Some md -> ConformCodecs.c6_msg_ok md = true ->
+  wt sc (KMessage tn) (FM m) = true -> ConformCodecs.kids_plain sc md m = true ->
+  defects_C06 sc no_side cs tn m = [] ->
+  Mapping.to_json E sc tn m = ROk j ->
+  (forall fuel, need (FM m) <= fuel ->
+     validates P (doc_components reader12 cs) fuel (body_schema tn) (wire_jv j) = VOk true) /\
+  (forall uf vf, existsb ConformCodecs.empty_null (m_fields md) = false \/ need (FM m) <= vf ->
+     und P (doc_components reader12 cs) uf vf (body_schema tn) (wire_jv j) = 0).
+Proof. exact ConformCodecs.spec_message_conforms. Qed.
+Print Assumptions C06_message_valid_documented.
+
+(* nullable: an unset field is sent as null and the property is published as type [T, "null"] *)
+Theorem C06_message_valid_nullable : forall (E : ExtLib) (sc : schema) (P : vparams) (cs : list (str * ynode))
+    (tn : str) (md : message) (m : mval) (j : json),
+  fprint_is_number E -> wire_formats_are_annotations P ->
+  find_message (all_messages sc) ts_name = None -> str_eqb tn ts_name = false -> is_wkt_other tn = false ->
+  find_message (all_messages sc) tn = Some md -> owner_of sc md = Own FtNullable ->
+  NullableFacts.nodup_str (map jn (m_fields md)) = true -> NullableConforms.nulplain_msg md = true ->
+  ConformCodecs.nullable_shape md = true ->
+  wt sc (KMessage tn) (FM m) = true -> ConformCodecs.kids_plain sc md m = true ->
+  defects_C06 sc no_side cs tn m = [] ->
+  (encode E sc tn m = ROk j \/ Mapping.to_json E sc tn m = ROk j) ->
+  (forall fuel, need (FM m) <= fuel ->
+     validates P (doc_components reader12 cs) fuel (body_schema tn) (wire_jv j) = VOk true) /\
+  (forall uf vf, und P (doc_components reader12 cs) uf vf (body_schema tn) (wire_jv j) = 0).
+Proof. exact ConformCodecs.message_conforms_nullable. Qed.
+Print Assumptions C06_message_valid_nullable.
+
+(* int64_encoding = NUMBER: JSON integers against type integer (minimum 0 when unsigned), singular and repeated *)
+Theorem C06_message_valid_int64 : forall (E : ExtLib) (sc : schema) (P : vparams) (cs : list (str * ynode))
+    (tn : str) (md : message) (m : mval) (j : json),
+  fprint_is_number E -> wire_formats_are_annotations P ->
+  find_message (all_messages sc) ts_name = None -> str_eqb tn ts_name = false -> is_wkt_other tn = false ->
+  find_message (all_messages sc) tn = Some md -> owner_of sc md = Own FtInt64 ->
+  buildable sc FtInt64 md = true ->
+  NullableFacts.nodup_str (map jn (m_fields md)) = true -> Int64Conforms.i64plain_msg md = true ->
+  wt sc (KMessage tn) (FM m) = true -> ConformCodecs.kids_plain sc md m = true ->
+  defects_C06 sc no_side cs tn m = [] ->
+  (encode E sc tn m = ROk j \/ Mapping.to_json E sc tn m = ROk j) ->
+  (forall fuel, need (FM m) <= fuel ->
+     validates P (doc_components reader12 cs) fuel (body_schema tn) (wire_jv j) = VOk true) /\
+  (forall uf vf, und P (doc_components reader12 cs) uf vf (body_schema tn) (wire_jv j) = 0).
+Proof. exact ConformCodecs.message_conforms_int64. Qed.
+Print Assumptions C06_message_valid_int64.
+
+(* bytes_encoding: text against type string + format (hex also against the published pattern) *)
+Theorem C06_message_valid_bytes : forall (E : ExtLib) (sc : schema) (P : vparams) (cs : list (str * ynode))
+    (tn : str) (md : message) (m : mval) (j : json),
+  fprint_is_number E -> wire_formats_are_annotations P -> ConformCodecs.codec_params P ->
+  find_message (all_messages sc) ts_name = None -> str_eqb tn ts_name = false -> is_wkt_other tn = false ->
+  find_message (all_messages sc) tn = Some md -> owner_of sc md = Own FtBytes ->
+  buildable sc FtBytes md = true ->
+  NullableFacts.nodup_str (map jn (m_fields md)) = true -> BytesConforms.bytesplain_msg md = true ->
+  wt sc (KMessage tn) (FM m) = true -> forallb (BytesConforms.bytes_value_ok sc md) m = true ->
+  defects_C06 sc no_side cs tn m = [] ->
+  (encode E sc tn m = ROk j \/ Mapping.to_json E sc tn m = ROk j) ->
+  (forall fuel, need (FM m) <= fuel ->
+     validates P (doc_components reader12 cs) fuel (body_schema tn) (wire_jv j) = VOk true) /\
+  (forall uf vf, und P (doc_components reader12 cs) uf vf (body_schema tn) (wire_jv j) = 0).
+Proof. exact ConformCodecs.message_conforms_bytes. Qed.
+Print Assumptions C06_message_valid_bytes.
+
+(* timestamp_format: Unix seconds / milliseconds against type integer, the date text against type string *)
+Theorem C06_message_valid_timestamp : forall (E : ExtLib) (sc : schema) (P : vparams) (cs : list (str * ynode))
+    (tn : str) (md : message) (m : mval) (j : json),
+  fprint_is_number E -> wire_formats_are_annotations P -> ConformCodecs.codec_params P ->
+  find_message (all_messages sc) ts_name = None -> str_eqb tn ts_name = false -> is_wkt_other tn = false ->
+  find_message (all_messages sc) tn = Some md -> owner_of sc md = Own FtTs ->
+  buildable sc FtTs md = true ->
+  NullableFacts.nodup_str (map jn (m_fields md)) = true -> forallb TimestampConforms.tsplain_field (m_fields md) = true ->
+  wt sc (KMessage tn) (FM m) = true -> forallb (TimestampConforms.ts_entry_ok sc md) m = true ->
+  defects_C06 sc no_side cs tn m = [] ->
+  (encode E sc tn m = ROk j \/ Mapping.to_json E sc tn m = ROk j) ->
+  (forall fuel, need (FM m) <= fuel ->
+     validates P (doc_components reader12 cs) fuel (body_schema tn) (wire_jv j) = VOk true) /\
+  (forall uf vf, und P (doc_components reader12 cs) uf vf (body_schema tn) (wire_jv j) = 0).
+Proof. exact ConformCodecs.message_conforms_ts. Qed.
+Print Assumptions C06_message_valid_timestamp.
+
+(* empty_behavior: NULL publishes oneOf [T, null] — an empty child is sent as null (second branch only), a non-empty
+   one as its object (first branch only); OMIT drops the key; PRESERVE changes nothing *)
+Theorem C06_message_valid_empty : forall (E : ExtLib) (sc : schema) (P : vparams) (cs : list (str * ynode))
+    (tn : str) (md : message) (m : mval) (j : json),
+  fprint_is_number E -> wire_formats_are_annotations P ->
+  find_message (all_messages sc) ts_name = None -> str_eqb tn ts_name = false -> is_wkt_other tn = false ->
+  find_message (all_messages sc) tn = Some md -> owner_of sc md = Own FtEmpty ->
+  buildable sc FtEmpty md = true ->
+  NullableFacts.nodup_str (map jn (m_fields md)) = true -> EmptyConforms.empplain_msg md = true ->
+  wt sc (KMessage tn) (FM m) = true -> ConformCodecs.kids_plain sc md m = true ->
+  defects_C06 sc no_side cs tn m = [] ->
+  (encode E sc tn m = ROk j \/ Mapping.to_json E sc tn m = ROk j) ->
+  (forall fuel, need (FM m) <= fuel ->
+     validates P (doc_components reader12 cs) fuel (body_schema tn) (wire_jv j) = VOk true) /\
+  (forall uf vf, existsb ConformCodecs.empty_null (m_fields md) = false \/ need (FM m) <= vf ->
+     und P (doc_components reader12 cs) uf vf (body_schema tn) (wire_jv j) = 0).
+Proof. exact ConformCodecs.message_conforms_empty. Qed.
+Print Assumptions C06_message_valid_empty.
+
+(* the added hypothesis on P is satisfiable: the parameters of the correspondence run *)
+Theorem C06_codec_params_inhabited : ConformCodecs.codec_params P06.
+Proof. exact ConformCodecs.P06_codec_params. Qed.
+Print Assumptions C06_codec_params_inhabited.
+
+(* non-vacuity, one per codec, on the document of a service whose RPCs carry the five messages (ConformCodecs.k6s):
+   all hypotheses hold, the annotated fields are populated with non-trivial values, the wire JSON is the one shown,
+   and the model's own verdict (what predict_C06 evaluates) agrees with the theorem *)
+Example C06_message_valid_nullable_nonvacuous :
+  ConformCodecs.k6_common (ConformCodecs.k6q "Nul") ConformCodecs.k6_nul ConformCodecs.nul_value /\
+  owner_of ConformCodecs.k6s ConformCodecs.k6_nul = Own FtNullable /\ NullableConforms.nulplain_msg ConformCodecs.k6_nul = true /\
+  ConformCodecs.nullable_shape ConformCodecs.k6_nul = true /\
+  ConformCodecs.kids_plain ConformCodecs.k6s ConformCodecs.k6_nul ConformCodecs.nul_value = true /\
+  encode Ex ConformCodecs.k6s (ConformCodecs.k6q "Nul") ConformCodecs.nul_value = ROk ConformCodecs.nul_json /\
+  (forall fuel, need (FM ConformCodecs.nul_value) <= fuel ->
+     validates P06 (cd_tcs ConformCodecs.k6doc) fuel (body_schema (ConformCodecs.k6q "Nul")) (wire_jv ConformCodecs.nul_json) = VOk true) /\
+  (forall uf vf, und P06 (cd_tcs ConformCodecs.k6doc) uf vf (body_schema (ConformCodecs.k6q "Nul")) (wire_jv ConformCodecs.nul_json) = 0) /\
+  ConformCodecs.k6_verdict (ConformCodecs.k6q "Nul") ConformCodecs.nul_value = ROk (ConformCodecs.nul_json, VOk true, 0%Z).
+Proof. exact ConformCodecs.message_conforms_nullable_nonvacuous. Qed.
+Print Assumptions C06_message_valid_nullable_nonvacuous.
+
+Example C06_message_valid_int64_nonvacuous :
+  ConformCodecs.k6_common (ConformCodecs.k6q "Nums") ConformCodecs.k6_nums ConformCodecs.nums_value /\
+  owner_of ConformCodecs.k6s ConformCodecs.k6_nums = Own FtInt64 /\ buildable ConformCodecs.k6s FtInt64 ConformCodecs.k6_nums = true /\
+  Int64Conforms.i64plain_msg ConformCodecs.k6_nums = true /\
+  ConformCodecs.kids_plain ConformCodecs.k6s ConformCodecs.k6_nums ConformCodecs.nums_value = true /\
+  encode Ex ConformCodecs.k6s (ConformCodecs.k6q "Nums") ConformCodecs.nums_value = ROk ConformCodecs.nums_json /\
+  (forall fuel, need (FM ConformCodecs.nums_value) <= fuel ->
+     validates P06 (cd_tcs ConformCodecs.k6doc) fuel (body_schema (ConformCodecs.k6q "Nums")) (wire_jv ConformCodecs.nums_json) = VOk true) /\
+  (forall uf vf, und P06 (cd_tcs ConformCodecs.k6doc) uf vf (body_schema (ConformCodecs.k6q "Nums")) (wire_jv ConformCodecs.nums_json) = 0) /\
+  ConformCodecs.k6_verdict (ConformCodecs.k6q "Nums") ConformCodecs.nums_value = ROk (ConformCodecs.nums_json, VOk true, 0%Z).
+Proof. exact ConformCodecs.message_conforms_int64_nonvacuous. Qed.
+Print Assumptions C06_message_valid_int64_nonvacuous.
+
+Example C06_message_valid_bytes_nonvacuous :
+  ConformCodecs.k6_common (ConformCodecs.k6q "Blob") ConformCodecs.k6_blob ConformCodecs.blob_value /\
+  owner_of ConformCodecs.k6s ConformCodecs.k6_blob = Own FtBytes /\ buildable ConformCodecs.k6s FtBytes ConformCodecs.k6_blob = true /\
+  BytesConforms.bytesplain_msg ConformCodecs.k6_blob = true /\
+  forallb (BytesConforms.bytes_value_ok ConformCodecs.k6s ConformCodecs.k6_blob) ConformCodecs.blob_value = true /\
+  encode Ex ConformCodecs.k6s (ConformCodecs.k6q "Blob") ConformCodecs.blob_value = ROk ConformCodecs.blob_json /\
+  (forall fuel, need (FM ConformCodecs.blob_value) <= fuel ->
+     validates P06 (cd_tcs ConformCodecs.k6doc) fuel (body_schema (ConformCodecs.k6q "Blob")) (wire_jv ConformCodecs.blob_json) = VOk true) /\
+  (forall uf vf, und P06 (cd_tcs ConformCodecs.k6doc) uf vf (body_schema (ConformCodecs.k6q "Blob")) (wire_jv ConformCodecs.blob_json) = 0) /\
+  ConformCodecs.k6_verdict (ConformCodecs.k6q "Blob") ConformCodecs.blob_value = ROk (ConformCodecs.blob_json, VOk true, 0%Z).
+Proof. exact ConformCodecs.message_conforms_bytes_nonvacuous. Qed.
+Print Assumptions C06_message_valid_bytes_nonvacuous.
+
+Example C06_message_valid_timestamp_nonvacuous :
+  ConformCodecs.k6_common (ConformCodecs.k6q "Times") ConformCodecs.k6_times ConformCodecs.times_value /\
+  owner_of ConformCodecs.k6s ConformCodecs.k6_times = Own FtTs /\ buildable ConformCodecs.k6s FtTs ConformCodecs.k6_times = true /\
+  forallb TimestampConforms.tsplain_field (m_fields ConformCodecs.k6_times) = true /\
+  forallb (TimestampConforms.ts_entry_ok ConformCodecs.k6s ConformCodecs.k6_times) ConformCodecs.times_value = true /\
+  encode Ex ConformCodecs.k6s (ConformCodecs.k6q "Times") ConformCodecs.times_value = ROk ConformCodecs.times_json /\
+  (forall fuel, need (FM ConformCodecs.times_value) <= fuel ->
+     validates P06 (cd_tcs ConformCodecs.k6doc) fuel (body_schema (ConformCodecs.k6q "Times")) (wire_jv ConformCodecs.times_json) = VOk true) /\
+  (forall uf vf, und P06 (cd_tcs ConformCodecs.k6doc) uf vf (body_schema (ConformCodecs.k6q "Times")) (wire_jv ConformCodecs.times_json) = 0) /\
+  ConformCodecs.k6_verdict (ConformCodecs.k6q "Times") ConformCodecs.times_value = ROk (ConformCodecs.times_json, VOk true, 0%Z).
+Proof. exact ConformCodecs.message_conforms_ts_nonvacuous. Qed.
+Print Assumptions C06_message_valid_timestamp_nonvacuous.
+
+Example C06_message_valid_empty_nonvacuous :
+  ConformCodecs.k6_common (ConformCodecs.k6q "Emp") ConformCodecs.k6_emp ConformCodecs.emp_value /\
+  owner_of ConformCodecs.k6s ConformCodecs.k6_emp = Own FtEmpty /\ buildable ConformCodecs.k6s FtEmpty ConformCodecs.k6_emp = true /\
+  EmptyConforms.empplain_msg ConformCodecs.k6_emp = true /\
+  ConformCodecs.kids_plain ConformCodecs.k6s ConformCodecs.k6_emp ConformCodecs.emp_value = true /\
+  encode Ex ConformCodecs.k6s (ConformCodecs.k6q "Emp") ConformCodecs.emp_value = ROk ConformCodecs.emp_json /\
+  (forall fuel, need (FM ConformCodecs.emp_value) <= fuel ->
+     validates P06 (cd_tcs ConformCodecs.k6doc) fuel (body_schema (ConformCodecs.k6q "Emp")) (wire_jv ConformCodecs.emp_json) = VOk true) /\
+  (forall uf vf, need (FM ConformCodecs.emp_value) <= vf ->
+     und P06 (cd_tcs ConformCodecs.k6doc) uf vf (body_schema (ConformCodecs.k6q "Emp")) (wire_jv ConformCodecs.emp_json) = 0) /\
+  need (FM ConformCodecs.emp_value) = 7 /\
+  ConformCodecs.k6_verdict (ConformCodecs.k6q "Emp") ConformCodecs.emp_value = ROk (ConformCodecs.emp_json, VOk true, 0%Z).
+Proof. exact ConformCodecs.message_conforms_empty_nonvacuous. Qed.
+Print Assumptions C06_message_valid_empty_nonvacuous.
+
+(* FINDING — the side condition of C06_message_valid_nullable is needed, and the case it excludes is one the generator
+   accepts: `optional Color color = 1 [(sebuf.http.nullable) = true]` (ValidateNullableAnnotation refuses only
+   non-optional and message fields).  makeNullableSchema (openapiv3/types.go:81-100) appends "null" to `type` and leaves
+   `enum` alone: the property is {type: [string, null], enum: [COLOR_UNSPECIFIED, COLOR_RED]}.  With the field unset the
+   server sends "color": null (httpgen/nullable.go:147-156), which is not one of the enum values: the emitted schema
+   REJECTS the server's JSON.  No defect class covers it (defects_C06 = [], inside k6_common); all other hypotheses hold. *)
+Example C06_message_valid_nullable_needs_nonenum :
+  let m := [(s "id", vstr "x")] in
+  let j := JObj [(s "id", JStr (s "x")); (s "color", JNull)] in
+  ConformCodecs.k6_common (ConformCodecs.k6q "NulEnum") ConformCodecs.k6_nulenum m /\
+  owner_of ConformCodecs.k6s ConformCodecs.k6_nulenum = Own FtNullable /\ NullableConforms.nulplain_msg ConformCodecs.k6_nulenum = true /\
+  ConformCodecs.kids_plain ConformCodecs.k6s ConformCodecs.k6_nulenum m = true /\
+  ConformCodecs.nullable_shape ConformCodecs.k6_nulenum = false /\
+  encode Ex ConformCodecs.k6s (ConformCodecs.k6q "NulEnum") m = ROk j /\ Mapping.to_json Ex ConformCodecs.k6s (ConformCodecs.k6q "NulEnum") m = ROk j /\
+  typed (convert_field ConformCodecs.k6s no_side (ConformCodecs.k6q "NulEnum")
+           (set_nullable (fld "color" 1 (KEnum (ConformCodecs.k6q "Color")) Optional)))
+    = SObj [KwType [TString; TNull]; KwEnum [JVStr (s "COLOR_UNSPECIFIED"); JVStr (s "COLOR_RED")]] /\
+  validates P06 (cd_tcs ConformCodecs.k6doc) c06_fuel (body_schema (ConformCodecs.k6q "NulEnum")) (wire_jv j) = VOk false /\
+  ConformCodecs.k6_verdict (ConformCodecs.k6q "NulEnum") [(s "color", FS (VEnum 1)); (s "id", vstr "x")]
+    = ROk (JObj [(s "color", JStr (s "COLOR_RED")); (s "id", JStr (s "x"))], VOk true, 0%Z).
+Proof. exact ConformCodecs.message_conforms_nullable_needs_nonenum. Qed.
+Print Assumptions C06_message_valid_nullable_needs_nonenum.
+
+(* nullable on a message field / on a repeated field (both refused by the generator): null is rejected *)
+Example C06_message_valid_nullable_needs_nonmessage :
+  let m := [(s "id", vstr "x")] in
+  let j := JObj [(s "id", JStr (s "x")); (s "leaf", JNull)] in
+  ConformCodecs.k6_common (ConformCodecs.k6q "NulMsg") ConformCodecs.k6_nulmsg m /\
+  owner_of ConformCodecs.k6s ConformCodecs.k6_nulmsg = Own FtNullable /\ NullableConforms.nulplain_msg ConformCodecs.k6_nulmsg = true /\
+  ConformCodecs.kids_plain ConformCodecs.k6s ConformCodecs.k6_nulmsg m = true /\
+  ConformCodecs.nullable_shape ConformCodecs.k6_nulmsg = false /\
+  encode Ex ConformCodecs.k6s (ConformCodecs.k6q "NulMsg") m = ROk j /\
+  validates P06 (cd_tcs ConformCodecs.k6doc) c06_fuel (body_schema (ConformCodecs.k6q "NulMsg")) (wire_jv j) = VOk false.
+Proof. exact ConformCodecs.message_conforms_nullable_needs_nonmessage. Qed.
+Example C06_message_valid_nullable_needs_singular :
+  let m := [(s "id", vstr "x")] in
+  let j := JObj [(s "id", JStr (s "x")); (s "tags", JNull)] in
+  ConformCodecs.k6_common (ConformCodecs.k6q "NulRep") ConformCodecs.k6_nulrep m /\
+  owner_of ConformCodecs.k6s ConformCodecs.k6_nulrep = Own FtNullable /\ NullableConforms.nulplain_msg ConformCodecs.k6_nulrep = true /\
+  ConformCodecs.kids_plain ConformCodecs.k6s ConformCodecs.k6_nulrep m = true /\
+  ConformCodecs.nullable_shape ConformCodecs.k6_nulrep = false /\
+  encode Ex ConformCodecs.k6s (ConformCodecs.k6q "NulRep") m = ROk j /\
+  validates P06 (cd_tcs ConformCodecs.k6doc) c06_fuel (body_schema (ConformCodecs.k6q "NulRep")) (wire_jv j) = VOk false.
+Proof. exact ConformCodecs.message_conforms_nullable_needs_singular. Qed.
+Print Assumptions C06_message_valid_nullable_needs_singular.
+
+(* empty_behavior = NULL: with validation fuel 2 the walk does not enter oneOf [T, null] and reports the key of the
+   non-empty child; from fuel 3 on (need = 7 is the bound the theorem gives) nothing is undescribed *)
+Example C06_message_valid_empty_needs_fuel :
+  und P06 (cd_tcs ConformCodecs.k6doc) und_fuel 2 (body_schema (ConformCodecs.k6q "Emp")) (wire_jv ConformCodecs.emp_json) = 1 /\
+  und P06 (cd_tcs ConformCodecs.k6doc) und_fuel 3 (body_schema (ConformCodecs.k6q "Emp")) (wire_jv ConformCodecs.emp_json) = 0 /\
+  existsb ConformCodecs.empty_null (m_fields ConformCodecs.k6_emp) = true.
+Proof. exact ConformCodecs.message_conforms_empty_needs_fuel. Qed.
+Print Assumptions C06_message_valid_empty_needs_fuel.
